@@ -207,7 +207,7 @@ func assemble(shared bool) *ingest {
 	if shared {
 		// "shared batch" workers: one insert-service instance per table and a flush interval long enough for two
 		// clients' rows to meet in the same batch
-		cfg.Setting.SYSTEM_SETTINGS.DBTimer = 0.25
+		cfg.Setting.SYSTEM_SETTINGS.DBTimer = 0.1
 		cfg.Setting.SYSTEM_SETTINGS.ChannelsSample = 1
 		cfg.Setting.SYSTEM_SETTINGS.ChannelsTimeSeries = 1
 	}
@@ -626,7 +626,7 @@ func workerMain(file string, offset int64, count int, deadline time.Duration, st
 	sort.Strings(fams)
 	w.deadline = 15 * time.Second // warm-up runs while the machine may be busy starting other workers
 	if shared {
-		// flush interval 250 ms: warm up with all seeds at once (they must all be acknowledged)
+		// flush interval 100 ms: warm up with all seeds at once (they must all be acknowledged)
 		type wu struct {
 			fam string
 			so  serveOut
